@@ -4,7 +4,7 @@ import values
 from values import VAL, show
 from runner import inst
 from rules.common import (tags_of, cls_of, witness_path, arg_role, obj_root, outcomes, path_class, strip_view, callback_kind,
-                          is_temp_object, unrewound, obj_handle_root, is_seek_start0)
+                          is_temp_object, unrewound, obj_handle_root, is_seek_start0, unfold_const_fn)
 from rules.c13 import entry, ro_entry
 from rules.c15 import stack_entries
 from graph import path_brief
@@ -104,7 +104,7 @@ def r19_2(ctx):
 def r19_3(ctx):
     out = []
     def mode_0444(ev):
-        mode = arg_role(ev, 'mode')
+        mode = unfold_const_fn(ctx, arg_role(ev, 'mode'))
         t = VAL[mode] if mode is not None else None
         return t is not None and t[0] == 'sym' and t[1] == 'app' and t[2].endswith('PermissionsExt>::from_mode') and VAL[t[4]] == ('int', str(0o444))
     for fk in ctx.role('finalizers'):
